@@ -108,7 +108,10 @@ def _run_case(binary, case):
 def replay(v, repo, cache):
     cases = None
     name = v.get("replay_adapter")
-    if name and name in ADAPTERS and v.get("playback") is not None:
+    if name and name.startswith("probe:"):
+        import frame
+        cases = frame.NUMBER_PROBES.get(name[6:])
+    elif name and name in ADAPTERS and v.get("playback") is not None:
         cases = ADAPTERS[name](v["playback"], v)
     elif v.get("probe"):
         cases = v["probe"]
